@@ -535,21 +535,51 @@ class Inliner:
         return pre + mod.body
 
 
+def _own_continue(node) -> bool:
+    """a `continue` that belongs to the loop the statement sits in (not to a loop nested in the statement)"""
+    if isinstance(node, ast.Continue):
+        return True
+    if isinstance(node, (ast.For, ast.While, ast.FunctionDef, ast.Lambda)):
+        return any(_own_continue(x) for x in getattr(node, "orelse", []))
+    return any(_own_continue(c) for c in ast.iter_child_nodes(node))
+
+
+def _falls(stmts: List[ast.stmt]) -> bool:
+    if not stmts:
+        return True
+    last = stmts[-1]
+    if isinstance(last, (ast.Continue, ast.Return, ast.Raise, ast.Break)):
+        return False
+    if isinstance(last, ast.If) and last.orelse:
+        return _falls(last.body) or _falls(last.orelse)
+    return True
+
+
 def _uncontinue(stmts: List[ast.stmt]) -> Optional[List[ast.stmt]]:
-    """`if c: A; continue` followed by REST  ==  `if c: A else: REST` (so that the sequence can be pasted where a `continue`
-    would mean something else)"""
+    """the statement sequence of a loop body without `continue`: `if c: A; continue` followed by REST becomes
+    `if c: A else: REST`, at any nesting depth of ifs (REST is copied into every arm that can fall through). None if a
+    `continue` sits somewhere this does not reach (inside try / with)."""
     out: List[ast.stmt] = []
     for i, st in enumerate(stmts):
-        if isinstance(st, ast.If) and not st.orelse and st.body and isinstance(st.body[-1], ast.Continue):
-            rest = _uncontinue(stmts[i + 1:])
-            if rest is None:
-                return None
-            new = ast.If(test=st.test, body=(_uncontinue(st.body[:-1]) or [ast.Pass()]), orelse=rest)
-            out.append(ast.copy_location(new, st))
-            return out
         if isinstance(st, ast.Continue):
-            return out  # a trailing continue is a no-op
-        out.append(st)
+            return out
+        if not _own_continue(st):
+            out.append(st)
+            continue
+        if not isinstance(st, ast.If):
+            return None
+        rest = stmts[i + 1:]
+        body = _uncontinue(list(st.body) + (copy.deepcopy(rest) if _falls(st.body) else []))
+        orelse = _uncontinue(list(st.orelse) + (copy.deepcopy(rest) if _falls(st.orelse) else []))
+        if body is None or orelse is None:
+            return None
+        if not body and orelse:
+            # `if c: continue` + REST  ==  `if not c: REST`
+            t = st.test.operand if isinstance(st.test, ast.UnaryOp) and isinstance(st.test.op, ast.Not) else ast.UnaryOp(op=ast.Not(), operand=st.test)
+            out.append(ast.copy_location(ast.If(test=t, body=orelse, orelse=[]), st))
+        else:
+            out.append(ast.copy_location(ast.If(test=st.test, body=body or [ast.Pass()], orelse=orelse), st))
+        return out
     return out
 
 
